@@ -270,6 +270,9 @@ func runC11(c *eng.Ctx) {
 	// ---- 5c. Aggregate(stored, incoming): the argument order is part of the meaning of Last / First -----------------------------------
 	c.Rule("SYMMETRY", "series/field.AggType.Aggregate{(stored, incoming) at every call site}", func() { aggregateArgumentOrder(c) })
 
+	// ---- 5d. file data is delivered under the query position of ITS field ------------------------------------------------------------
+	c.Rule("PROV", "tsdb/tblstore/metricsdata.metricReader.readSeriesData{query position from the field mapping}", func() { queryPositionFromMapping(c) })
+
 	// ---- shared with C03 ---------------------------------------------------------------------------------------------------------------
 	c.Rule("ANCHOR", mfT+".FlushSeries{startAt}", func() { flusherAnchors(c) })
 	c.Rule("LAYOUT", "tsdb/tblstore/metricsdata{block footer}", func() { blockFooter(c) })
@@ -494,5 +497,56 @@ func aggregateArgumentOrder(c *eng.Ctx) {
 	}
 	if n < 4 {
 		c.Undecided("expected >= 4 call sites of AggType.Aggregate, found %d", n)
+	}
+}
+
+// queryPositionFromMapping (F15): a metric block stores its fields in its own order; `readFieldIndexes[queryIdx]` says which
+// stored field (if any) answers the queryIdx-th queried field.  Every hand-over of decoded data to the query
+// (ctx.DownSampling(range, series, queryIdx, decoder)) must take queryIdx from the iteration over that mapping, on the
+// found side of its not-found test — also for a block that holds a single field (a constant position attributes that
+// field's points to whatever field the query lists first).
+func queryPositionFromMapping(c *eng.Ctx) {
+	p := c.P
+	f := c.Fn("tsdb/tblstore/metricsdata.metricReader.readSeriesData")
+	ds := c.Some(f, eng.CallTo("field:flow.DataLoadContext.DownSampling"), "ctx.DownSampling(timeRange, seriesIdx, queryIdx, decoder)")
+	nf, ok := p.ConstInt64("tsdb/tblstore/metricsdata", "fieldNotFound")
+	if !ok {
+		c.Undecided("constant fieldNotFound not found")
+	}
+	for i, d := range ds {
+		a := eng.CallArgs(d.Instr.(*ssa.Call))
+		qi := a[2]
+		_, isConst := eng.Unwrap(qi).(*ssa.Const)
+		// the position is the index of a range over r.readFieldIndexes
+		fromMapping := eng.DependsOn(qi, func(x ssa.Value) bool {
+			switch y := x.(type) {
+			case *ssa.Phi:
+				return y.Comment == "rangeindex"
+			case *ssa.Next:
+				return true
+			case *ssa.BinOp:
+				if ph, ok := y.X.(*ssa.Phi); ok && ph.Comment == "rangeindex" {
+					return true
+				}
+			}
+			return false
+		})
+		conds, _ := eng.GuardingConds(f, d.Instr)
+		overMapping, tested := false, false
+		for _, cd := range conds {
+			if eng.DependsOnField(cd, "tsdb/tblstore/metricsdata.metricReader.readFieldIndexes") {
+				overMapping = true
+				if bo, ok := eng.Unwrap(cd).(*ssa.BinOp); ok && (bo.Op == token.EQL || bo.Op == token.NEQ) {
+					if k, isC := eng.ConstInt(bo.Y); isC && k == nf {
+						tested = true
+					} else if k, isC := eng.ConstInt(bo.X); isC && k == nf {
+						tested = true
+					}
+				}
+			}
+		}
+		c.Check(!isConst && fromMapping && overMapping && tested, fmt.Sprintf("query-position-of-the-stored-field[%d]", i), d.Instr, f,
+			"the query position passed to DownSampling is the index of the loop over readFieldIndexes, under its not-found test (never a constant)",
+			fmt.Sprintf("position %s (constant: %v, loop index: %v, loop over readFieldIndexes: %v, not-found tested: %v)", p.Desc(qi), isConst, fromMapping, overMapping, tested))
 	}
 }
